@@ -242,6 +242,119 @@ fn determinism_slice(seed: u64, workers: usize) -> (Vec<(stats::RunId, u64)>, u6
     (all, h.0)
 }
 
+/// Replay files are only as good as the round trip of a run through JSON: every fault-plan kind,
+/// consumer mode, payload kind, workload, solver and a set of awkward floats must come back
+/// bit for bit, and the run read back must execute to the same fingerprint.
+fn cmd_selftest(a: &Args) -> i32 {
+    use spec::*;
+    let mut rng = prng::SplitMix64::new(prng::mix(a.seed, 0x5E1F));
+    let plans = vec![
+        FaultPlan::None,
+        FaultPlan::Transient(3),
+        FaultPlan::Permanent(u64::MAX >> 24),
+        FaultPlan::Burst(2, 5),
+        FaultPlan::Scattered(vec![1, 4, 9]),
+        FaultPlan::TimeAbove(0.1f64.to_bits()),
+        FaultPlan::TimeAbove((-0.0f64).to_bits()),
+        FaultPlan::NormAbove(f64::MAX.to_bits()),
+        FaultPlan::NormAbove(f64::MIN_POSITIVE.to_bits()),
+        FaultPlan::TimeWindow(1e-300f64.to_bits(), (1.0 + f64::EPSILON).to_bits()),
+    ];
+    let mut drives = vec![
+        Drive::Poll, Drive::CollectVec, Drive::ByRefCollect, Drive::TakeBursts(3), Drive::Nth0,
+        Drive::PollThenCollect, Drive::PollThenCount, Drive::PollThenLast, Drive::PollThenNth(2),
+        Drive::NthSkip(4), Drive::Count, Drive::Last,
+    ];
+    for k in 0..5u8 {
+        drives.push(Drive::Walk(k));
+        drives.push(Drive::PollThenWalk(k));
+    }
+    let floats = [0.0, -0.0, 1e-3, 5e-324, f64::MIN_POSITIVE, 1.0 + f64::EPSILON, -1000.0, 1e300, 0.1 + 0.2];
+    let mut n = 0u64;
+    let mut bad = 0u64;
+    for (pi, plan) in plans.iter().enumerate() {
+        for (di, drive) in drives.iter().enumerate() {
+            let kind = KINDS[(pi + di) % KINDS.len()];
+            let dynamic = (pi + di) % 2 == 0;
+            let nn = 1 + ((pi * 7 + di) % 4) as u8;
+            let f = |i: usize| floats[(pi * 3 + di + i) % floats.len()];
+            let inst = InstSpec {
+                kind,
+                dim: DimMode { dynamic, n: nn },
+                field: if di % 2 == 0 { Field::Real } else { Field::Complex },
+                data: if pi % 2 == 0 { DataMode::Unit } else { DataMode::Counter },
+                ops: vec![
+                    if dynamic { BOp::NewDyn(nn) } else { BOp::New },
+                    BOp::Tol(f(0).abs().max(1e-9)),
+                    BOp::Max(0.1),
+                    BOp::Min(f(1)),
+                    BOp::Start(f(2)),
+                    BOp::End(f(3)),
+                    BOp::IcSlice,
+                    BOp::IcVec,
+                    BOp::Deriv,
+                    BOp::Solve,
+                ],
+                problem: PROBLEMS[(pi + 2 * di) % PROBLEMS.len()],
+                y0: f(4),
+                plan: plan.clone(),
+                payload: PAYLOADS[(pi + di) % PAYLOADS.len()],
+                drive: *drive,
+                extra_polls: (di % 9) as u8,
+                nested_every: (pi % 3) as u32,
+            };
+            let spec = RunSpec { instances: vec![inst.clone(), inst], sched_seed: rng.next_u64(), phased: di % 2 == 1, solo_baselines: pi % 2 == 0 };
+            let text = spec.to_json().to_string_pretty();
+            let back = json::parse(&text).map_err(|e| e.to_string()).and_then(|j| RunSpec::from_json(&j));
+            n += 1;
+            match back {
+                Ok(b) if b == spec && b.to_json().to_string_compact() == spec.to_json().to_string_compact() => {}
+                Ok(_) => {
+                    bad += 1;
+                    eprintln!("selftest: run changed in the JSON round trip: {}", spec.to_json().to_string_compact());
+                }
+                Err(e) => {
+                    bad += 1;
+                    eprintln!("selftest: run does not parse back ({}): {}", e, spec.to_json().to_string_compact());
+                }
+            }
+        }
+    }
+    // executed fingerprints survive the round trip too (a sample of real runs)
+    let ft = explore_f::FTier::quick();
+    let groups = explore_f::groups(&ft);
+    for gi in (0..groups.len()).step_by(groups.len() / 40 + 1) {
+        for plan in [FaultPlan::Transient(5), FaultPlan::TimeAbove(0.01f64.to_bits()), FaultPlan::NormAbove(f64::MAX.to_bits())] {
+            let spec = RunSpec {
+                instances: vec![InstSpec { plan, drive: Drive::Walk((gi % 5) as u8), ..groups[gi].clone() }],
+                sched_seed: 0,
+                phased: false,
+                solo_baselines: true,
+            };
+            let b = [run::Budget { max_calls: 3_000, max_polls: 3_000 }];
+            let r1 = run::execute(&spec, &b, &run::ExecOpts::default());
+            let back = json::parse(&spec.to_json().to_string_pretty()).ok().and_then(|j| RunSpec::from_json(&j).ok());
+            n += 1;
+            match back {
+                Some(s2) => {
+                    let r2 = run::execute(&s2, &b, &run::ExecOpts::default());
+                    if r1.fp != r2.fp {
+                        bad += 1;
+                        eprintln!("selftest: fingerprint differs after the round trip: {}", spec.to_json().to_string_compact());
+                    }
+                }
+                None => bad += 1,
+            }
+        }
+    }
+    println!("selftest: {} runs through the JSON round trip, {} changed", n, bad);
+    if bad > 0 {
+        2
+    } else {
+        0
+    }
+}
+
 fn cmd_fingerprints(a: &Args) -> i32 {
     start_watchdog(a);
     let (all, digest) = determinism_slice(a.seed, a.workers);
@@ -846,6 +959,7 @@ fn main() {
         "check" => cmd_check(&a),
         "replay" => cmd_replay(&a),
         "fingerprints" => cmd_fingerprints(&a),
+        "selftest" => cmd_selftest(&a),
         _ => {
             eprintln!("unknown command {}", a.cmd);
             2
